@@ -191,3 +191,48 @@ func verifHarness_C01_strictDynamic() {
 		verifCover("C01 strict route selected")
 	}
 }
+
+// Route selection does not depend on what the router was asked before: after
+// an arbitrary earlier request (same router, any path), the winner for p is
+// still the specified one.  Tables of two or three overlapping dynamic routes
+// that share their first segment (where a self-reordering list would show).
+var verifC01HistoryTables = [][]verifRouteDef{
+	{{`/u/{v:[a-z0-9]+}`, []string{"GET"}}, {`/u/{w:[a-z0-9-]+}`, []string{"GET"}}},
+	{{`/u/{v:\d+}`, []string{"GET"}}, {"/u/{w}", []string{"GET"}}, {"/u/{x}/y", []string{"GET"}}},
+	{{"/{v}/a", []string{"GET"}}, {"/{w}/{x}", []string{"GET"}}},
+	{{`/u/{v:[a-z]+}`, []string{"GET", "POST"}}, {"/u/{w}", []string{"POST"}}, {"/u/{x}", []string{"GET"}}},
+}
+
+func verifHarness_C01_history() {
+	cfg := verifCfg()
+	defs := verifC01HistoryTables[cfg%len(verifC01HistoryTables)]
+	cached := (cfg/len(verifC01HistoryTables))%2 == 1
+	var r *Router
+	if cached {
+		r = New(EnableCaching)
+	} else {
+		r = New()
+	}
+	routes := verifBuildTable(r, defs)
+	n := verifLen("n", 3, verifParam("L"))
+	// earlier requests: two of them, same length as p (so that "the same path" is one of the cases)
+	for k := 0; k < 2; k++ {
+		q := verifNormalPathN("q", n)
+		r.QuickMatch("GET", q)
+	}
+	m := []string{"GET", "POST"}[verifChoice("method", 2)]
+	p := verifNormalPathN("p", n)
+	got, _, _ := r.QuickMatch(m, p)
+	g := -1
+	if got != nil {
+		// (a caching router answers with a copy: identify the route by its pattern and methods)
+		for i, rt := range routes {
+			if rt.Path() == got.Path() && verifSameStrings(rt.Methods(), got.Methods()) {
+				g = i
+			}
+		}
+	}
+	verifAssert(verifOr(got == nil, g >= 0), "the returned route is a registered route")
+	verifAssert(verifWinnerIs(defs, m, p, g), "the selected route is the specified winner whatever was requested before")
+	verifCover("C01 selection after earlier requests")
+}
